@@ -351,6 +351,24 @@ func (w *uWorld) fenceThrough(ti int, tag int64) (stray []string, f *kit.Finding
 	return stray, kit.Violation("udp:fence-lost", "a valid datagram from a fresh client was not forwarded within %v (3 attempts): the packet loop has stopped serving", uBound)
 }
 
+// racedWithRemoval reports whether the client's most recent association got a report after its removal report:
+// the server reports the removal a moment before the entry leaves the table, so a datagram arriving in that
+// window is still handled by (and reported on) the old association. Nothing in the properties forbids that;
+// the model simply cannot know which association such a datagram met, so the rest of the case is not judged.
+func (w *uWorld) racedWithRemoval(client string) bool {
+	r := w.findRec(client, 0)
+	if r == nil {
+		return false
+	}
+	evs := r.Events()
+	for i, e := range evs {
+		if e.Kind == "removed" && i != len(evs)-1 {
+			return true
+		}
+	}
+	return false
+}
+
 func (w *uWorld) liveAssoc(ci int) *uAssoc {
 	a := w.assoc[ci]
 	if a == nil {
@@ -462,7 +480,12 @@ func (w *uWorld) doSend(i int, op UOp) *kit.Finding {
 				delete(w.assoc, op.Client)
 				return w.doSend(i, op)
 			}
-			return kit.Violation("udp:not-forwarded", "op %d: datagram valid under %s (client %d known=%v, %d bytes payload) did not reach its target within %v (2 attempts)", i, ks.ID, op.Client, a != nil, len(payload), uBound)
+			diag := "no association reported for the client"
+			if r := w.findRec(cl.Addr.String(), 0); r != nil {
+				evs := r.Events()
+				diag = fmt.Sprintf("association reported (key %s, removed %d times), last events %+v", r.Key, r.Removed(), evs[max(0, len(evs)-3):])
+			}
+			return kit.Violation("udp:not-forwarded", "op %d: datagram valid under %s (client %d %v known=%v, %d bytes payload) did not reach its target %v within %v (2 attempts); server side: %s", i, ks.ID, op.Client, cl.Addr, a != nil, len(payload), tgt.Addr, uBound, diag)
 		}
 		if !bytes.Equal(d.Data, payload) {
 			return kit.Violation("udp:payload-corrupt", "op %d: target received %d bytes, want the %d-byte payload after the address header (first diff at %d)", i, len(d.Data), len(payload), firstDiff(d.Data, payload))
@@ -470,8 +493,12 @@ func (w *uWorld) doSend(i int, op UOp) *kit.Finding {
 		if a == nil {
 			a = &uAssoc{Client: op.Client, Gen: len(w.all), Key: matched[0], NatSrc: map[string]string{}, targets: map[int]bool{}}
 			// locate the metrics record of the new association
-			if kit.WaitFor(uBound, func() bool { return w.findRec(cl.Addr.String(), nAssocBefore) != nil }) {
+			if kit.WaitFor(uBound, func() bool { return w.findRec(cl.Addr.String(), nAssocBefore) != nil || w.racedWithRemoval(cl.Addr.String()) }) && w.findRec(cl.Addr.String(), nAssocBefore) != nil {
 				a.Rec = w.findRec(cl.Addr.String(), nAssocBefore)
+			} else if w.racedWithRemoval(cl.Addr.String()) {
+				w.aborted = true
+				w.info.Inconclusive = fmt.Sprintf("op %d met an association in the window between its removal report and its removal", i)
+				return nil
 			} else {
 				return kit.Violation("udp:assoc-not-reported", "op %d: a datagram was forwarded for new client %v but no association was reported added", i, cl.Addr)
 			}
@@ -545,7 +572,15 @@ func (w *uWorld) doSend(i int, op UOp) *kit.Finding {
 	}
 	if a == nil && unsendable && allowedDst {
 		var r *kit.RecUDPAssoc
-		if !kit.WaitFor(uBound, func() bool { r = w.findRec(cl.Addr.String(), nAssocBefore); return r != nil }) {
+		if !kit.WaitFor(uBound, func() bool {
+			r = w.findRec(cl.Addr.String(), nAssocBefore)
+			return r != nil || w.racedWithRemoval(cl.Addr.String())
+		}) || r == nil {
+			if w.racedWithRemoval(cl.Addr.String()) {
+				w.aborted = true
+				w.info.Inconclusive = fmt.Sprintf("op %d met an association in the window between its removal report and its removal", i)
+				return nil
+			}
 			return kit.Violation("udp:assoc-not-reported", "op %d: an authenticated datagram with an allowed destination created no association (its send failed, but it is the client's datagram that creates the association)", i)
 		}
 		na := &uAssoc{Client: op.Client, Gen: len(w.all), Key: matched[0], NatSrc: map[string]string{}, targets: map[int]bool{}, Rec: r, LastWrite: sentAt}
